@@ -341,6 +341,46 @@ def check_case(ctx, model, case):
         ctx.case((tuple(steps), info["measure"], digest, "flip") if okf else None)
 
 
+# ---------------------------------------------------------------- the finding bilateral_window_clipped_to_even_size
+
+
+def probe_clipped_bilateral(ctx, case=None):
+    """Side condition of C13_bilateral_step_vflip, read on the real code: the bilateral window in effect is
+    min(rows, cols, int(3 sigma_space + 1)); an odd requested window (7 for sigma_space 2.0) clipped to an even size by a
+    4-row image is not symmetric about its centre, and the flipped run is not the flip of the run
+    (C13_vflip_clipped_window_refuted is the same fact on the model).  A 7-row image (window not clipped) is the control."""
+    rng = ctx.rng
+    if case is None:
+        left, right, _, _ = gen_scene(rng, 7, 40, 255, (False, False))
+        case = {"probe": "clipped_bilateral", "left": left.tolist(), "right": right.tolist(), "interval": [-2, 2],
+                "pipeline": [["matching_cost", {"matching_cost_method": "sad", "window_size": 1, "subpix": 1}],
+                             ["disparity", {"disparity_method": "wta", "invalid_disparity": -9999}],
+                             ["filter", {"filter_method": "bilateral", "sigma_color": 2.0, "sigma_space": 2.0}]]}
+    left7 = np.array(case["left"], dtype=np.float32)
+    right7 = np.array(case["right"], dtype=np.float32)
+    for rows in (7, 4):
+        left, right = np.ascontiguousarray(left7[:rows]), np.ascontiguousarray(right7[:rows])
+        try:
+            w = run_pipeline(left, right, None, None, case["interval"], case["pipeline"])
+            f = run_pipeline(np.ascontiguousarray(left[::-1]), np.ascontiguousarray(right[::-1]), None, None,
+                             case["interval"], case["pipeline"])
+        except Exception as exc:  # pylint: disable=broad-except
+            ctx.count("probe_clipped_bilateral_raised_" + pu.exc_class(exc))
+            return
+        ctx.traces += 2
+        a, b = w["ld"].astype(np.float64), f["ld"][::-1].astype(np.float64)
+        bad = ~((np.isnan(a) & np.isnan(b)) | (np.abs(a - b) <= 2.0 ** -12))
+        ctx.count(f"probe_bilateral_window7_on_{rows}_rows_flip_" + ("differs" if bad.any() else "agrees"))
+        if bad.any():
+            y, x = (int(v) for v in np.argwhere(bad)[0])
+            key = "bilateral_window_clipped_to_even_size" if rows == 4 else "vertical_flip_differs_ld_bilateral_unclipped_window"
+            ctx.violation(key, f"bilateral filter sigma_space 2.0 (window int(3*2+1) = 7, odd) on a {rows}x40 image: the window in "
+                               f"effect is min(rows, cols, 7) = {min(rows, 7)}; the disparity map of the vertically flipped pair "
+                               f"differs from the flipped disparity map on {int(bad.sum())} pixel(s), first at {[y, x]}: "
+                               f"{float(a[y, x])} vs {float(b[y, x])}", dict(case))
+    ctx.case(("probe", "clipped_bilateral"))
+
+
 # ---------------------------------------------------------------- cases
 
 
@@ -411,6 +451,9 @@ def run(ctx):
     if D2 != [5, 9, 9] or M2 != [5, 9, 9]:
         ctx.mismatch("radii_example_cbca", "window 3, [-2,1], mc cbca3 wta median5 xcheck", [D2, M2], [[5, 9, 9], [5, 9, 9]])
     ctx.stats["example_radii_cbca"] = {"data_cone": D2, "margin": M2}
+    if ctx.replay_case is not None and ctx.replay_case.get("probe") == "clipped_bilateral":
+        probe_clipped_bilateral(ctx, dict(ctx.replay_case))
+        return
     if ctx.replay_case is not None:
         case = dict(ctx.replay_case)
         if "crop" in case:          # a failing crop: replay that crop only
@@ -426,7 +469,11 @@ def run(ctx):
     import os
     for path in sorted(glob.glob(os.path.join(core.VERIF, "corpus", "C13", "*.json"))):
         with open(path) as fh:
-            check_case(ctx, model, json.load(fh))
+            ccase = json.load(fh)
+        if ccase.get("probe") == "clipped_bilateral":      # the input of the finding bilateral_window_clipped_to_even_size
+            probe_clipped_bilateral(ctx, ccase)
+        else:
+            check_case(ctx, model, ccase)
         ctx.count("corpus_cases")
     n_scenes, ncrops = (18, 2) if ctx.tier == "quick" else (300, 4)
     n_big = 1 if ctx.tier == "quick" else 12
@@ -448,6 +495,7 @@ def run(ctx):
         ctx.count("masks_right" if case["mask_right"] is not None else "no_mask_right")
         check_case(ctx, model, case)
     if ctx.tier != "quick":
+        probe_clipped_bilateral(ctx)       # the same probe on a fresh scene
         # regression of the repaired defect: ssd costs of 12-bit radiometry through cbca (float32 running sums
         # depended on the distance to the image side)
         for i in range(6):
